@@ -3,9 +3,11 @@ package main
 
 import (
 	"context"
+	"errors"
 	"fmt"
 	"net/http"
 	"net/http/httptest"
+	"os"
 	"time"
 
 	"verifharness/vh"
@@ -22,6 +24,7 @@ type Op struct {
 	N int    `json:"n"`
 	P []byte `json:"p"`
 	H bool   `json:"h,omitempty"`
+	M string `json:"m,omitempty"` // check: up | err | 500
 }
 type Case struct {
 	Nodes []NodeCfg `json:"nodes"`
@@ -171,10 +174,30 @@ func (rt *route) RoundTrip(req *http.Request) (*http.Response, error) {
 	return rec.Result(), nil
 }
 
+// hcRoute is the transport of the health-check client: on "up" the status request reaches the peer's
+// real handler through the in-process router, otherwise it fails the way the script says.
+type hcRoute struct {
+	rt   *route
+	mode string
+}
+
+func (h *hcRoute) RoundTrip(req *http.Request) (*http.Response, error) {
+	switch h.mode {
+	case "err":
+		return nil, errors.New("scripted transport failure")
+	case "500":
+		rec := httptest.NewRecorder()
+		rec.WriteHeader(http.StatusInternalServerError)
+		return rec.Result(), nil
+	}
+	return h.rt.RoundTrip(req)
+}
+
 func run(c Case) vh.Case {
 	var pools []*pool.PeerPool
 	var cfgs []string
 	rt := &route{muxes: map[string]*http.ServeMux{}}
+	hc := &hcRoute{rt: rt}
 	for _, n := range c.Nodes {
 		p, err := pool.NewPeerPool(pool.PeerPoolConfig{NodeID: string(n.ID), Peers: strs(n.Peers), Network: "10.0.0.0/24", Gateway: "10.0.0.1"})
 		if err != nil {
@@ -187,6 +210,7 @@ func run(c Case) vh.Case {
 			rt.muxes[string(n.ID)] = mux
 		}
 		p.VerifSetHTTPClient(&http.Client{Transport: rt, Timeout: 2 * time.Second})
+		p.VerifSetHealthCheckClient(&http.Client{Transport: hc, Timeout: 2 * time.Second})
 		var ps []string
 		for _, q := range n.Peers {
 			ps = append(ps, vh.Bytes(q))
@@ -224,8 +248,35 @@ func run(c Case) vh.Case {
 			if err != nil {
 				op, out = fmt.Sprintf("Alloc %s %s", n, vh.Bytes(o.P)), "OErr"
 			} else {
-				op, out = fmt.Sprintf("Alloc %s %s", n, vh.Bytes(o.P)), "OStr "+vh.Str(resp.NodeID)
+				op, out = fmt.Sprintf("Alloc %s %s", n, vh.Bytes(o.P)), "OServed "+vh.Str(resp.NodeID)+" "+vh.Str(resp.SubscriberID)
 			}
+		case "release":
+			op = fmt.Sprintf("Release %s %s", n, vh.Bytes(o.P))
+			if err := p.Release(context.Background(), string(o.P)); err != nil {
+				if os.Getenv("C17_DEBUG") != "" {
+					fmt.Fprintf(os.Stderr, "release %d %q: %v\n", o.N, o.P, err)
+				}
+				out = "OErr"
+			} else {
+				out = "ONone"
+			}
+		case "get":
+			_, found := p.Get(string(o.P))
+			op, out = fmt.Sprintf("Get %s %s", n, vh.Bytes(o.P)), "OBool "+vh.Bool(found)
+		case "holds":
+			var hs []string
+			for i, q := range pools {
+				if q.VerifLocalHolds(string(o.P)) {
+					hs = append(hs, vh.N(uint64(i)))
+				}
+			}
+			op, out = fmt.Sprintf("Holds %s", vh.Bytes(o.P)), "OHold "+vh.List(hs)
+		case "check":
+			hc.mode = o.M
+			p.VerifCheckPeer(context.Background(), string(o.P))
+			h, f := p.VerifPeerHealth(string(o.P))
+			op = fmt.Sprintf("CheckPeer %s %s %s", n, vh.Bytes(o.P), vh.Bool(o.M == "up"))
+			out = fmt.Sprintf("OHealth %s %d", vh.Bool(h), f)
 		case "howner":
 			op, out = fmt.Sprintf("HealthyOwner %s %s", n, vh.Bytes(o.P)), "OStr "+vh.Str(p.VerifHealthyOwner(string(o.P)))
 		}
@@ -236,8 +287,338 @@ func run(c Case) vh.Case {
 	for t := range tags {
 		tl = append(tl, t)
 	}
-	tl = append(tl, fmt.Sprintf("nodes:%d", len(c.Nodes)), fmt.Sprintf("peers:%d", len(c.Nodes[0].Peers)))
+	nb := len(c.Nodes)
+	if nb > 8 {
+		nb = 9 // "nodes:9" = more than 8
+	}
+	tl = append(tl, fmt.Sprintf("nodes:%d", nb), fmt.Sprintf("peers:%d", len(c.Nodes[0].Peers)))
 	return vh.Case{Coq: "(" + vh.List(cfgs) + ",\n  " + vh.List(tr) + ")", Desc: c, Tags: tl}
+}
+
+// ---------------------------------------------------------------- exhaustive streams
+
+func bs(l ...string) [][]byte {
+	o := make([][]byte, len(l))
+	for i, s := range l {
+		o[i] = []byte(s)
+	}
+	return o
+}
+
+// allPerms returns every permutation of l (Heap's algorithm, deterministic order).
+func allPerms(l [][]byte) [][][]byte {
+	var out [][][]byte
+	a := append([][]byte(nil), l...)
+	var rec func(k int)
+	rec = func(k int) {
+		if k <= 1 {
+			out = append(out, append([][]byte(nil), a...))
+			return
+		}
+		for i := 0; i < k; i++ {
+			rec(k - 1)
+			if k%2 == 0 {
+				a[i], a[k-1] = a[k-1], a[i]
+			} else {
+				a[0], a[k-1] = a[k-1], a[0]
+			}
+		}
+	}
+	rec(len(a))
+	return out
+}
+
+var permKeys = [][]byte{[]byte("sub-1"), []byte("aa:bb:cc:dd:ee:01"), {}}
+
+// permCases: for one peer set (size <= 5) one node per permutation of the configured order (chunks of
+// 24 nodes), node ids cycling through the set; every node is asked the same questions. A second family
+// starts every node from its own id only and AddPeers the others in every order.
+func permCases(set [][]byte, keys [][]byte) []Case {
+	var cs []Case
+	perms := allPerms(set)
+	for at := 0; at < len(perms); at += 24 {
+		end := at + 24
+		if end > len(perms) {
+			end = len(perms)
+		}
+		var c Case
+		for i, pm := range perms[at:end] {
+			c.Nodes = append(c.Nodes, NodeCfg{ID: set[(at+i)%len(set)], Peers: pm})
+		}
+		for ki, k := range keys {
+			for m := range c.Nodes {
+				c.Ops = append(c.Ops, Op{K: "owner", N: m, P: k})
+			}
+			c.Ops = append(c.Ops, Op{K: "ranked", N: 0, P: k}, Op{K: "ranked", N: len(c.Nodes) - 1, P: k})
+			if ki == 0 { // with no health marks the healthy owner is the owner: one key is enough here
+				for m := range c.Nodes {
+					c.Ops = append(c.Ops, Op{K: "howner", N: m, P: k})
+				}
+			}
+			c.Ops = append(c.Ops, Op{K: "local", N: len(c.Nodes) / 2, P: k})
+		}
+		cs = append(cs, c)
+	}
+	if len(set) >= 2 && len(set) <= 5 { // AddPeer in every order (the other n-1 names), start from {id}
+		rest := allPerms(set[1:])
+		for at := 0; at < len(rest); at += 24 {
+			end := at + 24
+			if end > len(rest) {
+				end = len(rest)
+			}
+			var c Case
+			for range rest[at:end] {
+				c.Nodes = append(c.Nodes, NodeCfg{ID: set[0], Peers: [][]byte{set[0]}})
+			}
+			for m, pm := range rest[at:end] {
+				for _, p := range pm {
+					c.Ops = append(c.Ops, Op{K: "add", N: m, P: p})
+				}
+			}
+			for _, k := range keys[:2] {
+				for m := range c.Nodes {
+					c.Ops = append(c.Ops, Op{K: "owner", N: m, P: k})
+				}
+				c.Ops = append(c.Ops, Op{K: "ranked", N: 0, P: k})
+			}
+			cs = append(cs, c)
+		}
+	}
+	return cs
+}
+
+// healthCases: for one peer set (size <= 5) with the first m names instantiated as nodes:
+//
+//	(a) one case per health vector (all 2^n subsets), the vector applied at every node, then every node asked;
+//	(b) one walk through all vectors over the non-instantiated peers in Gray-code order (one peer flips per
+//	    step at every node) with every node asked after each step (minimal-disruption clause);
+//	(c) as (b) but the peers are marked through the real checkPeer: three scripted failures / one success.
+func healthCases(set [][]byte, m int, keys [][]byte) []Case {
+	n := len(set)
+	mk := func() Case {
+		var c Case
+		for i := 0; i < m; i++ {
+			c.Nodes = append(c.Nodes, NodeCfg{ID: set[i], Peers: append([][]byte(nil), set...)})
+		}
+		return c
+	}
+	ask := func(c *Case) {
+		for _, k := range keys {
+			for i := 0; i < m; i++ {
+				c.Ops = append(c.Ops, Op{K: "howner", N: i, P: k})
+			}
+		}
+	}
+	var cs []Case
+	for v := 0; v < 1<<n; v++ {
+		c := mk()
+		ask(&c)
+		for b := 0; b < n; b++ {
+			if v>>b&1 == 1 {
+				for i := 0; i < m; i++ {
+					c.Ops = append(c.Ops, Op{K: "health", N: i, P: set[b], H: false})
+				}
+			}
+		}
+		ask(&c)
+		cs = append(cs, c)
+	}
+	free := n - m
+	if free > 0 {
+		for variant := 0; variant < 2; variant++ {
+			c := mk()
+			ask(&c)
+			prev := 0
+			for s := 1; s < 1<<free; s++ {
+				g := s ^ (s >> 1)
+				flip := g ^ prev
+				prev = g
+				b := 0
+				for flip>>b&1 == 0 {
+					b++
+				}
+				down := g>>b&1 == 1
+				for i := 0; i < m; i++ {
+					if variant == 0 {
+						c.Ops = append(c.Ops, Op{K: "health", N: i, P: set[m+b], H: !down})
+					} else if down {
+						for t := 0; t < 3; t++ {
+							c.Ops = append(c.Ops, Op{K: "check", N: i, P: set[m+b], M: []string{"err", "500", "up"}[t]})
+						}
+					} else {
+						// the peer is not instantiated, so a real check can only fail: recover through the hook
+						c.Ops = append(c.Ops, Op{K: "health", N: i, P: set[m+b], H: true})
+					}
+				}
+				ask(&c)
+			}
+			cs = append(cs, c)
+		}
+	}
+	return cs
+}
+
+// checkSeqCases: every sequence of check outcomes (ok / fail) up to length maxLen against one
+// instantiated peer, observing the peer's record after every check and the routing decision at the end.
+func checkSeqCases(maxLen int) []Case {
+	set := bs("bng-1", "bng-2", "bng-3")
+	var cs []Case
+	for l := 1; l <= maxLen; l++ {
+		for v := 0; v < 1<<l; v++ {
+			var c Case
+			for i := 0; i < 2; i++ {
+				c.Nodes = append(c.Nodes, NodeCfg{ID: set[i], Peers: append([][]byte(nil), set...)})
+			}
+			for t := 0; t < l; t++ {
+				mode := "up"
+				if v>>t&1 == 1 {
+					mode = []string{"err", "500"}[(t+v)%2]
+				}
+				c.Ops = append(c.Ops, Op{K: "check", N: 0, P: set[1], M: mode})
+			}
+			c.Ops = append(c.Ops, Op{K: "howner", N: 0, P: []byte("sub-1")}, Op{K: "howner", N: 0, P: []byte("sub-2")},
+				Op{K: "howner", N: 0, P: []byte("sub-4")})
+			cs = append(cs, c)
+		}
+	}
+	return cs
+}
+
+// ---------------------------------------------------------------- pool stream (end to end)
+
+// subscriber ids for the end-to-end stream: plain ones and ids with URL-significant characters (the
+// release handler of a peer takes the id from the URL path), and ids that are not valid UTF-8 (a
+// forwarded Allocate carries the id in a JSON body, K17d) together with what those turn into.
+var subPool = []string{"sub-1", "sub-2", "sub-3", "aa:bb:cc:dd:ee:01", "a/b", "a//b", "a/../b", "a/./b", ".", "..", "...",
+	"a?b", "a?", "?", "a#b", "#", "a%41", "aA", "a%2Fb", "a%2fb", "a%zz", "%", "a b", "a+b", "a&b=c", "a;b", "a@b:c", "/sub", "sub/",
+	"ü日", "a\x00b", "a\x7fb", "a\nb", "", "a", "b", "a\"b", "a<b>", "a\\b", "[x]", "~a_b-c.d", "a%252F",
+	"\xff", "\xfe1", "sub\xc3", "\xed\xa0\x80", "\xc0\xaf", "\xf4\x90\x80\x80", "a\xe2\x82", "\xef\xbf\xbd", "\xef\xbf\xbd1", "sub\xef\xbf\xbd", "\xf0\x9f\x98\x80"}
+
+func genPoolCase(r *vh.Rng, maxOps int) Case {
+	names := append([]string(nil), safePool...)
+	for i := len(names) - 1; i > 0; i-- {
+		j := r.Intn(i + 1)
+		names[i], names[j] = names[j], names[i]
+	}
+	np := 2 + r.Intn(4)
+	if !r.Chance(1, 12) { // mostly no "X" / "X:8081" pair (K17b) in one set
+		var d []string
+		for _, x := range names {
+			ok := true
+			for _, y := range d {
+				if x == y+":8081" || y == x+":8081" {
+					ok = false
+				}
+			}
+			if ok {
+				d = append(d, x)
+			}
+		}
+		names = d
+	}
+	set := bs(names[:np]...)
+	nn := 2 + r.Intn(3)
+	if nn > np {
+		nn = np
+	}
+	var c Case
+	for i := 0; i < nn; i++ {
+		peers := perm(r, set)
+		if r.Chance(1, 10) {
+			var p2 [][]byte
+			for _, p := range peers {
+				if string(p) != string(set[i]) {
+					p2 = append(p2, p)
+				}
+			}
+			peers = p2
+		}
+		if r.Chance(1, 25) && len(peers) > 1 { // a node with a different view
+			peers = peers[:len(peers)-1]
+		}
+		c.Nodes = append(c.Nodes, NodeCfg{ID: set[i], Peers: peers})
+	}
+	subs := make([][]byte, 0, 4)
+	for i := 0; i < 4; i++ {
+		subs = append(subs, []byte(subPool[r.Intn(len(subPool))]))
+	}
+	// failover family: one instantiated node is marked unhealthy at every node (itself included) and no
+	// request enters there afterwards; its subscribers must move to, and be released from, one fallback pool
+	fo := -1
+	if r.Chance(1, 4) {
+		fo = r.Intn(nn)
+		for m := 0; m < nn; m++ {
+			c.Ops = append(c.Ops, Op{K: "health", N: m, P: set[fo], H: false})
+		}
+	}
+	entry := func() int {
+		n := r.Intn(nn)
+		if n == fo {
+			n = (n + 1) % nn
+		}
+		return n
+	}
+	nops := 2 + r.Intn(maxOps)
+	for i := 0; i < nops; i++ {
+		n := entry()
+		k := subs[r.Intn(len(subs))]
+		switch x := r.Intn(24); {
+		case x < 8:
+			c.Ops = append(c.Ops, Op{K: "alloc", N: n, P: k})
+			if r.Chance(1, 2) {
+				c.Ops = append(c.Ops, Op{K: "alloc", N: entry(), P: k})
+			}
+			c.Ops = append(c.Ops, Op{K: "holds", P: k})
+		case x < 13:
+			c.Ops = append(c.Ops, Op{K: "release", N: n, P: k}, Op{K: "holds", P: k})
+		case x < 15:
+			for m := 0; m < nn; m++ {
+				c.Ops = append(c.Ops, Op{K: "get", N: m, P: k})
+			}
+		case x < 17:
+			c.Ops = append(c.Ops, Op{K: "holds", P: k})
+		case x < 18:
+			for m := 0; m < nn; m++ {
+				c.Ops = append(c.Ops, Op{K: "owner", N: m, P: k})
+			}
+		case x < 19:
+			for m := 0; m < nn; m++ {
+				if m != fo {
+					c.Ops = append(c.Ops, Op{K: "howner", N: m, P: k})
+				}
+			}
+		case x < 21: // shared health change on a peer that is not a node of this case (inside the K17a guard), sometimes any
+			p := set[r.Intn(len(set))]
+			if nn < np && !r.Chance(1, 6) {
+				p = set[nn+r.Intn(np-nn)]
+			}
+			h := r.Chance(1, 3)
+			for m := 0; m < nn; m++ {
+				if string(c.Nodes[m].ID) == string(p) && r.Chance(5, 6) {
+					continue
+				}
+				c.Ops = append(c.Ops, Op{K: "health", N: m, P: p, H: h})
+			}
+		case x < 22:
+			p := set[r.Intn(len(set))]
+			if string(p) != string(c.Nodes[n].ID) {
+				c.Ops = append(c.Ops, Op{K: "check", N: n, P: p, M: []string{"up", "err", "500"}[r.Intn(3)]})
+			}
+		case x < 23:
+			p := []byte(safePool[r.Intn(len(safePool))])
+			for m := 0; m < nn; m++ {
+				c.Ops = append(c.Ops, Op{K: "add", N: m, P: p})
+			}
+		default:
+			p := set[r.Intn(len(set))]
+			for m := 0; m < nn; m++ {
+				if string(c.Nodes[m].ID) != string(p) {
+					c.Ops = append(c.Ops, Op{K: "rm", N: m, P: p})
+				}
+			}
+		}
+	}
+	return c
 }
 
 const header = `From Coq Require Import NArith List. Import ListNotations.
@@ -251,35 +632,134 @@ Definition R := Eval vm_compute in run_cases cases.
 Print R.
 `
 
+func emit(cfg vh.Config, stream string, shard int, cases []vh.Case, extra map[string]interface{}) {
+	c2 := cfg
+	c2.Shard = shard
+	vh.Emit(c2, stream, header, footer, cases, extra)
+}
+
 func main() {
 	cfg := vh.ParseFlags()
-	var cases []vh.Case
 	if cfg.Replay != "" {
 		var c Case
 		if err := vh.LoadReplay(cfg.Replay, &c); err != nil {
 			panic(err)
 		}
-		cases = append(cases, run(c))
-	} else {
-		r := vh.NewRng(cfg.Seed)
-		n, maxOps := 400, 14
-		if cfg.Thorough() {
-			n, maxOps = 6000, 30
+		vh.Emit(cfg, "cases", header, footer, []vh.Case{run(c)}, nil)
+		return
+	}
+	r := vh.NewRng(cfg.Seed)
+	var corpus []vh.Case
+	for _, f := range vh.CorpusFiles(cfg) {
+		var c Case
+		if err := vh.LoadReplay(f, &c); err != nil {
+			panic(err)
 		}
-		var corpus []vh.Case
-		for _, f := range vh.CorpusFiles(cfg) {
-			var c Case
-			if err := vh.LoadReplay(f, &c); err != nil {
-				panic(err)
+		corpus = append(corpus, run(c))
+	}
+	if len(corpus) > 0 {
+		vh.Emit(cfg, "corpus", header, footer, corpus, nil)
+	}
+
+	// random histories (any byte strings as names)
+	n, maxOps := 300, 14
+	if cfg.Thorough() {
+		n, maxOps = 4000, 30
+	}
+	var cases []vh.Case
+	for i := 0; i < n; i++ {
+		cases = append(cases, run(genCase(r.Fork(), maxOps)))
+	}
+	emit(cfg, "cases", 40, cases, nil)
+
+	// all permutations of the configured order / of the AddPeer order for peer sets of size <= 5
+	sets := [][][]byte{bs("bng-1"), bs("bng-1", "bng-2"), bs("a", "ab", "abc"), bs("bng-1", "bng-10", "bng-2", "bng-3"),
+		bs("", "a", "\x00", "\xff\xfe", "ab"), bs("bng-1", "bng-2", "bng-3", "node-east", "node-west")}
+	extraSets := 1
+	if cfg.Thorough() {
+		extraSets = 25
+	}
+	for i := 0; i < extraSets; i++ {
+		rr := r.Fork()
+		var s [][]byte
+		seen := map[string]bool{}
+		for len(s) < 2+i%4 {
+			x := genName(rr)
+			if !seen[string(x)] {
+				seen[string(x)] = true
+				s = append(s, x)
 			}
-			corpus = append(corpus, run(c))
 		}
-		if len(corpus) > 0 {
-			vh.Emit(cfg, "corpus", header, footer, corpus, nil)
+		if i%5 == 4 { // a duplicated name in the configured list
+			s[len(s)-1] = s[0]
 		}
-		for i := 0; i < n; i++ {
-			cases = append(cases, run(genCase(r.Fork(), maxOps)))
+		sets = append(sets, s)
+	}
+	var pc []vh.Case
+	for _, s := range sets {
+		keys := append(append([][]byte(nil), permKeys...), r.Bytes(5))
+		for _, c := range permCases(s, keys) {
+			vc := run(c)
+			vc.Tags = append(vc.Tags, fmt.Sprintf("permset:%d", len(s)))
+			pc = append(pc, vc)
 		}
 	}
-	vh.Emit(cfg, "cases", header, footer, cases, nil)
+	emit(cfg, "perm", 3, pc, map[string]interface{}{"exhaustive": true,
+		"exhaustive_over": "every permutation of the configured peer order, and every AddPeer order, for each listed peer set of size <= 5"})
+
+	// all health vectors for peer sets of size <= 5
+	hsets := []struct {
+		s [][]byte
+		m int
+	}{{bs("bng-1", "bng-2"), 2}, {bs("bng-1", "bng-2", "bng-3"), 2}, {bs("a", "ab", "abc", "b"), 2},
+		{bs("bng-1", "bng-2", "bng-3", "node-east", "node-west"), 2}, {bs("bng-1", "bng-2", "bng-3", "bng-10", "olt-7"), 3}}
+	if cfg.Thorough() {
+		for i := 0; i < 12; i++ {
+			rr := r.Fork()
+			names := append([]string(nil), safePool...)
+			for a := len(names) - 1; a > 0; a-- {
+				b := rr.Intn(a + 1)
+				names[a], names[b] = names[b], names[a]
+			}
+			sz := 2 + i%4
+			hsets = append(hsets, struct {
+				s [][]byte
+				m int
+			}{bs(names[:sz]...), 1 + rr.Intn(sz)})
+		}
+	}
+	var hcs []vh.Case
+	for _, h := range hsets {
+		keys := [][]byte{[]byte("sub-1"), []byte("sub-2"), r.Bytes(4)}
+		for _, c := range healthCases(h.s, h.m, keys) {
+			vc := run(c)
+			vc.Tags = append(vc.Tags, fmt.Sprintf("hvset:%d", len(h.s)))
+			hcs = append(hcs, vc)
+		}
+	}
+	emit(cfg, "health", 12, hcs, map[string]interface{}{"exhaustive": true,
+		"exhaustive_over": "every health vector (subset of the peer set marked unhealthy at every node) for each listed peer set of size <= 5; Gray-code walks over the vectors of the non-instantiated peers"})
+
+	// every sequence of health-check outcomes up to length 6 (7 in thorough)
+	ml := 6
+	if cfg.Thorough() {
+		ml = 8
+	}
+	var qc []vh.Case
+	for _, c := range checkSeqCases(ml) {
+		qc = append(qc, run(c))
+	}
+	emit(cfg, "hcheck", 32, qc, map[string]interface{}{"exhaustive": true,
+		"exhaustive_over": fmt.Sprintf("every ok/fail sequence of real checkPeer calls up to length %d", ml)})
+
+	// end to end: Allocate / Release / Get through the peer handlers, pool contents observed
+	np := 200
+	if cfg.Thorough() {
+		np = 3000
+	}
+	var pl []vh.Case
+	for i := 0; i < np; i++ {
+		pl = append(pl, run(genPoolCase(r.Fork(), maxOps)))
+	}
+	emit(cfg, "pool", 25, pl, nil)
 }
